@@ -478,6 +478,23 @@ func runC20(c *Ctx) {
 					if blocking {
 						R.Ob(c.siteKey(in, "blocking channel operation under "+strings.Join(setList(la.at[in]), ",")), c.P.InstrPos(in), false, "a goroutine can block on a channel while holding a mutex")
 					}
+					// ... nor a wait for the PEER: a TLS handshake, a read from the connection or a copy of message
+					// octets under Conn.locker keeps Server.Close (which holds Server.locker and needs Conn.locker to
+					// close this very connection) waiting for as long as the peer likes
+					if cc := callCommon(in); cc != nil {
+						waits := ""
+						if g := staticCallee(cc); g != nil {
+							switch qualFuncName(g) {
+							case "(*tls.Conn).Handshake", "(*tls.Conn).HandshakeContext", "io.Copy", "io.CopyN", "io.ReadAll", "(*Conn).readLine", "(*textproto.Conn).ReadLine", "(*textproto.Reader).ReadLine", "time.Sleep":
+								waits = qualFuncName(g)
+							}
+						} else if cc.IsInvoke() && (cc.Method.Name() == "Read" || cc.Method.Name() == "Handshake") {
+							waits = "interface method " + cc.Method.Name()
+						}
+						if waits != "" {
+							R.Ob(c.siteKey(in, "no wait for the peer under "+strings.Join(setList(la.at[in]), ",")), c.P.InstrPos(in), false, funcName(f)+" calls "+waits+" while holding "+strings.Join(setList(la.at[in]), ",")+": Server.Close / Conn.Close block on that mutex until the peer moves, so Close no longer ends the connection (and, holding Server.locker, stalls every other connection's teardown)")
+						}
+					}
 				}
 			})
 		}
